@@ -26,15 +26,20 @@ CONV = {"f64": ["f32", "c128", "c64", "f64"], "f32": ["f64", "c64", "f32", "c128
 @st.composite
 def strategy_case(draw):
     op = draw(st.sampled_from(["saveload", "saveload", "saveload", "clone", "detach", "to_dtype", "to_none", "cpu", "numpy"]))
-    src = draw(st.sampled_from(["cores", "cores", "svd", "round", "slice_step", "slice_range", "t", "conj", "grad"]))
+    src = draw(st.sampled_from(["cores", "cores", "svd", "round", "slice_step", "slice_range", "t", "conj", "grad", "lazybit"]))
     dt = draw(st.sampled_from(gen.DTYPES_ALL))
-    ttm = src == "t" or (src in ("cores", "svd", "grad", "slice_range") and draw(st.floats(0, 1)) < 0.3)
+    ttm = src == "t" or (src in ("cores", "svd", "grad", "slice_range", "lazybit") and draw(st.floats(0, 1)) < 0.3)
     if src in ("svd",):
         x = draw(gen.tt_spec(dmin=2, dmax=5, sizes=(1, 2, 3, 4), dt=dt, mode="gauss", ttm=ttm, rmax=3, maxnumel=600 if not ttm else 24))
     elif ttm:
         x = draw(gen.tt_spec(dmin=1, dmax=4, sizes=(1, 2, 3, 4), dt=dt, ttm=True, maxnumel=40))
     else:
         x = draw(gen.tt_spec(dmin=1, dmax=6, sizes=(1, 2, 3, 4, 5), dt=dt, maxnumel=3000))
+    if src == "lazybit":
+        # the conversions that have to resolve the lazy bits; low orders (an order-1 full() is a view of the core)
+        op = draw(st.sampled_from(["numpy", "numpy", "saveload", "clone", "cpu", "to_none", "detach"]))
+        if not ttm:
+            x = draw(gen.tt_spec(dmin=1, dmax=3, sizes=(1, 2, 3, 4, 5), dt=dt, maxnumel=300))
     case = {"op": op, "src": src, "x": x}
     if src in ("svd", "round"):
         case["eps"] = draw(st.sampled_from([1e-12, 1e-3, 0.05, 0.3]))
@@ -92,6 +97,14 @@ def _build(T, case, ck):
         return T.TT(cores).t()
     if src == "conj":
         return T.TT(cores).conj()
+    if src == "lazybit":
+        # cores that are views carrying torch's lazy negation bit (real dtypes: the imaginary part of a conjugated complex
+        # tensor) or lazy conjugation bit (complex dtypes); their value is that of the drawn cores
+        if cores[0].is_complex():
+            lazy = [torch.conj(c.conj().resolve_conj()) for c in cores]
+        else:
+            lazy = [torch.complex(torch.zeros_like(c), -c).conj().imag for c in cores]
+        return T.TT(lazy)
     raise core.HarnessError(src)
 
 
